@@ -28,6 +28,7 @@ type Clause struct {
 	Line    int
 	Tags    []string // property ids this clause serves (from the name prefix "C06/...")
 	Assumed bool     // used at call sites, not proved on the body
+	Local   bool     // proved on the body, never assumed at call sites (a clause that may be a finding)
 }
 
 // StableDecl: fields of a struct type that only the listed functions assign.
@@ -344,7 +345,7 @@ func (ss *SpecSet) directive(cur **Contract, pkgPath, file string, ln int, body 
 			}
 		}
 		(*cur).Callers = append((*cur).Callers, c)
-	case "requires", "ensures", "assumed-ensures", "onpanic", "mints", "burns", "commutes", "assumes":
+	case "requires", "ensures", "assumed-ensures", "local-ensures", "onpanic", "mints", "burns", "commutes", "assumes":
 		if *cur == nil {
 			return fail(fmt.Errorf("%s outside a func block", word))
 		}
@@ -356,6 +357,12 @@ func (ss *SpecSet) directive(cur **Contract, pkgPath, file string, ln int, body 
 		case "requires":
 			(*cur).Requires = append((*cur).Requires, c)
 		case "ensures":
+			(*cur).Ensures = append((*cur).Ensures, c)
+		case "local-ensures":
+			// a postcondition decided on the body but never handed to callers: for a clause
+			// that is (or may become) a recorded finding - assuming a refuted clause at call
+			// sites would make the callers' paths through the defect look infeasible
+			c.Local = true
 			(*cur).Ensures = append((*cur).Ensures, c)
 		case "assumed-ensures":
 			// a postcondition used at call sites but NOT proved on the body: an explicit,
